@@ -266,6 +266,9 @@ func (r *Run) Inconclusive(why string) {
 // Violation records a refutation. kind is the stable failure class, sig says
 // what specifically fails, witness is written to a replay file.
 func (r *Run) Violation(kind, sig, caseID string, witness any) {
+	// error texts of the Go protobuf runtime use a space or a no-break space after "proto:" depending on the
+	// binary (deliberately unstable output); signatures must not depend on that
+	sig = strings.ReplaceAll(sig, "\u00a0", " ")
 	r.mu.Lock()
 	defer r.mu.Unlock()
 	k := kind + "\x00" + sig
